@@ -130,6 +130,7 @@ const (
 	FillUniform = iota // every entry random non-zero: a switch decision at every step
 	FillSparse         // non-zero with probability 1/k: few preemptions (PCT-like)
 	FillQuantum        // runs of zeros of random length, then one non-zero
+	FillFew            // param non-zero entries at random places of a random-length prefix: long uninterrupted stretches with a handful of preemptions
 	FillStyles
 )
 
@@ -147,6 +148,16 @@ func FillTape(r *SplitMix64, n int, style int, param int) []uint32 {
 		for i := range out {
 			if r.Intn(param) == 0 {
 				out[i] = r.nonzero()
+			}
+		}
+	case FillFew:
+		span := []int{200, 800, 3000, 12000, n}[r.Intn(5)]
+		if span > n {
+			span = n
+		}
+		for range param {
+			if span > 0 {
+				out[r.Intn(span)] = r.nonzero()
 			}
 		}
 	case FillQuantum:
